@@ -1399,6 +1399,41 @@ def m_bytes_split(interp, b, sep=None, maxsplit=-1):
     return interp.fresh(interp.native(b.split, sep, maxsplit))
 
 
+def f_copy(interp, x):
+    import copy as _copy
+    if isinstance(x, SObj):
+        m = interp.find_in_mro(x.cls, "__copy__")
+        if isinstance(m, types.FunctionType):
+            return interp.call(m, (x,), {})
+        return SObj(x.cls, dict(x.fields), fresh=True)
+    if isinstance(x, SymSet):
+        return x.copy()
+    if isinstance(x, (SBytes, SInt, SBool)):
+        return x
+    r = interp.native(_copy.copy, x)
+    if isinstance(r, (list, dict, set, bytearray)):
+        interp.fresh(r)
+    return r
+
+
+def f_deepcopy(interp, x, memo=None):
+    if isinstance(x, SObj):
+        m = interp.find_in_mro(x.cls, "__deepcopy__")
+        if isinstance(m, types.FunctionType):
+            return interp.call(m, (x, {}), {})
+        return SObj(x.cls, {k: f_deepcopy(interp, v) for k, v in x.fields.items()}, fresh=True)
+    if isinstance(x, list):
+        return interp.fresh([f_deepcopy(interp, v) for v in x])
+    if isinstance(x, tuple):
+        return tuple(f_deepcopy(interp, v) for v in x)
+    if isinstance(x, dict):
+        return interp.fresh({k: f_deepcopy(interp, v) for k, v in x.items()})
+    if contains_sym(x):
+        return f_copy(interp, x)
+    import copy as _copy
+    return interp.native(_copy.deepcopy, x)
+
+
 METHOD_MODELS = {
     (dict, "get"): m_dict_get,
     (dict, "setdefault"): m_dict_setdefault,
@@ -1412,7 +1447,8 @@ METHOD_MODELS = {
     (list, "count"): m_list_count,
 }
 
-FUNCTION_MODELS = {}
+import copy as _copymod
+FUNCTION_MODELS = {_copymod.copy: f_copy, _copymod.deepcopy: f_deepcopy}
 
 BUILTIN_MODELS = {
     isinstance: b_isinstance, issubclass: b_issubclass, len: b_len, hasattr: b_hasattr,
